@@ -998,8 +998,9 @@ pub fn check(property: &str, tier: &str) -> i32 {
         for m in st.machinery.iter().take(10) {
             eprintln!("machinery: {m}");
         }
-        let _ = report.finish();
-        return 2;
+        // a confirmed new violation is the verdict even if the machinery also has a complaint
+        let rc = report.finish();
+        return if rc == 1 { 1 } else { 2 };
     }
     report.finish()
 }
